@@ -139,8 +139,11 @@ pub fn record(args: &Args) {
             let list: Vec<f64> = if k == 1 {
                 thresholds.clone()
             } else {
-                // several threads: the summation order may move a bound by an ulp, keep a distance
-                totals.iter().flat_map(|m| [m * (1.0 - 1e-6), m * (1.0 + 1e-6)]).chain([0.0, f64::NAN, f64::INFINITY]).collect()
+                // several threads: the summation order may move a bound by an ulp, so the run is judged on ITS OWN
+                // per-iteration bounds only (Trace_Stop, RunOK without the prefix part).  Thresholds an ulp around the
+                // one-thread bounds are then as good as any others - and they are where a tolerance in the comparison
+                // of the several-thread loops shows
+                thresholds.iter().cloned().chain(totals.iter().flat_map(|m| [m * (1.0 - 1e-6), m * (1.0 + 1e-6)])).collect()
             };
             for thr in list {
                 match run(t, meth, preset, k, budget, thr, sd) {
